@@ -724,8 +724,10 @@ class LoopMon:
     of the oldest unread broker packet, or with an error (a batch is at most 9 packets; an
     Unsolicited error stops it at the offending packet)."""
 
-    def __init__(self, mx):
+    def __init__(self, mx, ver="4"):
         self.max = mx
+        self.ver = ver
+        self.limit = mx                # v5: min(receive-maximum of the last CONNACK (absent = 65535), configured limit)
         self.viol = []
         self.sent = []                 # tags of accepted user publishes with qos > 0, in order
         self.sent_gen = {}             # tag -> number of failures before it was issued
@@ -755,11 +757,27 @@ class LoopMon:
         """what earlier connections left unacknowledged and this one has not retransmitted yet"""
         return [(tg, x[0], x[1]) for tg, x in self.st.items() if x[0] in "UR" and self.cur.get(x[1]) != tg]
 
+    @staticmethod
+    def key(fields):
+        """(kind, id) of a broker packet given as its fields; a v5 PUBREC carrying a failure reason
+        (>= 128) is its own kind: it ends the flow"""
+        kind = fields[0]
+        i = int(fields[1]) if len(fields) > 1 and fields[1].isdigit() else 0
+        if kind == "PUBREC" and len(fields) > 2 and fields[2].isdigit() and int(fields[2]) >= 128:
+            kind = "PUBREC!"
+        return (kind, i)
+
     def apply(self, kind, i):
         """one broker packet processed by the client; False = the client must have refused it"""
         tg = self.cur.get(i)
         x = self.st.get(tg)
-        if kind == "PUBACK":
+        if kind == "PUBREC!":
+            # v5: the broker refused the QoS2 publish: no PUBREL, the id is free, the publish is done with
+            if x is None or x[0] != "U":
+                return False
+            x[0] = "A"; del self.cur[i]
+            self.nontrivial.add("v5-pubrec-refused")
+        elif kind == "PUBACK":
             if x is None or x[0] != "U":
                 self.order_ok = False      # a PUBACK that acknowledges nothing moves last_puback
                 return False
@@ -807,8 +825,10 @@ class LoopMon:
             for part in body.split(";"):
                 f = part.split()
                 if f:
-                    self.netq.append((f[0], int(f[1]) if len(f) > 1 else 0))
+                    self.netq.append(self.key(f))
                     if self.alive:
+                        if len(f) > 1 and f[-1] == "0" and (f[0] == "DISCONNECT" or (len(f) == 3 and f[0] in ("PUBACK", "PUBREC", "PUBREL", "PUBCOMP"))):
+                            f = f[:-1]         # reason code 0 is not printed
                         self.wq.append([self.conn_id, ":".join(f), False])      # [connection, packet, read by the client]
                         if f[0] == "PUB" and f[1] in ("1", "2"):
                             self.owed_acks.append("%s:%s" % ("PUBACK" if f[1] == "1" else "PUBREC", f[2]))
@@ -839,6 +859,19 @@ class LoopMon:
             return
         kind, arg, wire = m.group(1), m.group(2), m.group(3).split()
         deferred = []
+        if "CONNECT" in wire:
+            # this poll connected (v4: it returns the CONNACK; v5: the CONNACK notification is queued
+            # behind what the previous connection left unread, and a refused CONNACK is an ERROR)
+            self.cur, self.netq = {}, []
+            self.conn_id += 1
+            self.alive = True
+            self.owed_acks = []
+            self.conn_last = -1
+        if kind == "ERROR" and arg.startswith("ConnFail"):
+            # v5: the state machine refused the CONNACK (receive-maximum 0); poll() returns the error
+            # before select(): the connection is NOT dropped, the next poll uses it
+            self.nontrivial.add("v5-connack-refused")
+            return
         if kind == "ERROR":
             self.alive = False
             self.owed_acks = []
@@ -861,8 +894,7 @@ class LoopMon:
             return
         if kind == "EVENT" and arg.startswith("I(") and not arg.startswith("I(CONNACK:"):
             x = arg[2:-1]
-            if self.netq and (x.split(":")[0], int(x.split(":")[1]) if len(x.split(":")) > 1 and x.split(":")[1].isdigit() else 0) == self.netq[0] \
-                    and not any(w[2] for w in self.wq):
+            if self.netq and self.key(x.split(":")) == self.netq[0] and not any(w[2] for w in self.wq):
                 deferred = self.run_batch(stop_on_refusal=False)      # this poll ran the read batch
             if self.wq and self.wq[0][1] == x and self.wq[0][2]:
                 self.wq.pop(0)
@@ -878,11 +910,11 @@ class LoopMon:
                 self.v("C10", "the loop is idle but inbound publishes were not answered: missing %s" % self.owed_acks[:3])
                 self.owed_acks = []
         if kind == "EVENT" and arg.startswith("I(CONNACK:"):
-            self.cur, self.netq = {}, []
-            self.conn_id += 1
-            self.alive = True
-            self.owed_acks = []
-            self.conn_last = -1
+            ca = arg[2:-1].split(":")
+            if self.ver == "5" and len(ca) > 3 and ca[3] != "0":
+                self.limit = self.max if ca[3] == "-" else min(int(ca[3]), self.max)
+                if self.limit < self.max:
+                    self.nontrivial.add("v5-receive-maximum-lowers-window")
             if arg[10] != "1":
                 self.order_ok = False      # K29: the session was not resumed
             if arg[10] == "1":
@@ -929,8 +961,9 @@ class LoopMon:
                 if self.order_ok and self.failures >= 2:
                     self.nontrivial.add("order-after-repeated-failure")
                 self.conn_last = max(self.conn_last, pos)
-                if len(self.cur) > self.max:
-                    self.v("C07", "%d unacknowledged on the wire > limit %d" % (len(self.cur), self.max))
+                if len(self.cur) > self.limit:
+                    self.v("C07", "%d unacknowledged on the wire > limit %d%s" % (
+                        len(self.cur), self.limit, " (receive-maximum of the last CONNACK)" if self.limit < self.max else ""))
             elif f[0] in ("PUBACK", "PUBREC"):
                 if self.owed_acks and self.owed_acks[0] == w:
                     self.owed_acks.pop(0)
@@ -973,9 +1006,13 @@ def burst_monitor(line, ans):
     return v
 
 
-def gen_loop_history(rng, model, mx, style="mixed"):
+def gen_loop_history(rng, model, mx, style="mixed", ver="4"):
     """model-guided: the extracted loop model answers each op, the broker script (which acks to
-    send) is chosen from what the model says is on the wire; returns (ops, model_answers)"""
+    send) is chosen from what the model says is on the wire; returns (ops, model_answers).
+    ver 5: the v5 loop (LNEW5); every CONNACK carries a receive-maximum drawn from
+    {absent, 1, 2, max, max+1, 65535, rarely 0 = refused}; acks carry reason codes now and then (a
+    PUBREC with a failure reason ends the flow); the server sometimes sends DISCONNECT instead of
+    closing the connection."""
     ops, answers = [], []
 
     def do(op):
@@ -985,8 +1022,33 @@ def gen_loop_history(rng, model, mx, style="mixed"):
         return a
 
     thr = rng.choice([300, 300, 50, 1000]) if style == "throttle" else 0
-    do("LNEW %d 0%s" % (mx, " %d" % thr if thr else ""))
-    do("ACCEPT 1"); do("POLL")
+    v5 = ver == "5"
+    do("%s %d 0%s" % ("LNEW5" if v5 else "LNEW", mx, " %d" % thr if thr else ""))
+
+    def accept(sp):
+        if not v5:
+            return do("ACCEPT %d" % sp)
+        rm = rng.choice(["-", "-", "1", "2", str(mx), str(mx + 1), "65535"])
+        if rng.chance(1, 25):
+            rm = "0"
+        return do("ACCEPT %d %s" % (sp, rm))
+
+    def hangup():
+        """the connection ends: the broker closes it, or (v5) announces it with DISCONNECT"""
+        if v5 and rng.chance(1, 4):
+            return do("NET DISCONNECT %d" % rng.choice([139, 142, 130]))
+        return do("DROP")
+
+    def puback(i):
+        return "PUBACK %d%s" % (i, " %d" % rng.choice([16, 128, 135]) if v5 and rng.chance(1, 6) else "")
+
+    def pubrec(i):
+        """returns (packet, flow ended)"""
+        if v5 and rng.chance(1, 4):
+            return "PUBREC %d %d" % (i, rng.choice([128, 135, 151])), True
+        return "PUBREC %d%s" % (i, " 16" if v5 and rng.chance(1, 8) else ""), False
+
+    accept(1); do("POLL")
     unacked, rel, tag = {}, [], 0       # broker view of this connection
     btag = [0]                          # inbound publishes carry unique payload tags
 
@@ -1024,19 +1086,23 @@ def gen_loop_history(rng, model, mx, style="mixed"):
             elif r < 55 and (unacked or rel):
                 pk = []
                 for i in list(unacked)[:1 + rng.below(2)]:
-                    pk.append(("PUBACK %d" if unacked[i] == "1" else "PUBREC %d") % i)
                     if unacked[i] == "1":
-                        unacked.pop(i)
+                        pk.append(puback(i)); unacked.pop(i)
+                    else:
+                        x, ended = pubrec(i)
+                        pk.append(x)
+                        if ended:
+                            unacked.pop(i)
                 for i in rel[:1]:
                     pk.append("PUBCOMP %d" % i); rel.remove(i)
                 do("NET " + " ; ".join(pk)); a = drain()
             else:
-                do("DROP"); a = drain()
+                hangup(); a = drain()
             if a.startswith(("AMBIG", "DISABLED")):
                 break
             if a.startswith(("ERROR", "NOCONN")):
                 unacked.clear(); del rel[:]
-                do("ACCEPT 1"); note(do("POLL"))
+                accept(1); note(do("POLL"))
                 # the broker talks during the throttle waits of the resumed session
                 for _ in range(1 + rng.below(3)):
                     btag[0] += 1
@@ -1062,20 +1128,20 @@ def gen_loop_history(rng, model, mx, style="mixed"):
                     unacked.pop(i)
                 a = drain()
             else:
-                do("DROP")
+                hangup()
                 a = drain()
             if a.startswith(("AMBIG", "DISABLED")):
                 break
             if a.startswith(("ERROR", "NOCONN")):
                 unacked.clear(); del rel[:]
-                do("ACCEPT 1"); note(do("POLL"))
+                accept(1); note(do("POLL"))
                 for _ in range(rng.below(4)):          # replay partly ...
                     a = do("POLL"); note(a)
                 if rng.chance(1, 2):                   # ... and fail again before any PUBACK
-                    do("DROP"); a = drain()
-                    if a.startswith("ERROR"):
+                    hangup(); a = drain()
+                    if a.startswith("ERROR") and not a.startswith("ERROR ConnFail"):
                         unacked.clear(); del rel[:]
-                        do("ACCEPT 1"); note(do("POLL"))
+                        accept(1); note(do("POLL"))
                 drain()
             continue
         if style == "burst" or r >= 97:
@@ -1115,9 +1181,12 @@ def gen_loop_history(rng, model, mx, style="mixed"):
                 ids = ids[::-1]
             for i in ids[:1 + rng.below(3)]:
                 if unacked[i] == "1":
-                    pk.append("PUBACK %d" % i); unacked.pop(i)
+                    pk.append(puback(i)); unacked.pop(i)
                 else:
-                    pk.append("PUBREC %d" % i)
+                    x, ended = pubrec(i)
+                    pk.append(x)
+                    if ended:
+                        unacked.pop(i)
             for i in rel[:rng.below(3)]:
                 pk.append("PUBCOMP %d" % i); rel.remove(i)
             if rng.chance(1, 10):
@@ -1129,32 +1198,87 @@ def gen_loop_history(rng, model, mx, style="mixed"):
                 do("DROP")
             a = drain()
         elif r < 95:
-            do("DROP")
+            hangup()
             a = drain()
         else:
             a = drain()
         if a.startswith(("AMBIG", "DISABLED")):
             break
-        if a.startswith("ERROR") or a.startswith("NOCONN"):
+        if (a.startswith("ERROR") and not a.startswith("ERROR ConnFail")) or a.startswith("NOCONN"):
             unacked.clear(); del rel[:]
-            do("ACCEPT %d" % (0 if rng.chance(1, 6) else 1))
+            accept(0 if rng.chance(1, 6) else 1)
             a = do("POLL"); note(a)
             if rng.chance(1, 5):      # second failure before pending is drained
-                do("POLL")
+                note(do("POLL"))
                 do("DROP"); a = drain()
-                if a.startswith("ERROR"):
+                if a.startswith("ERROR") and not a.startswith("ERROR ConnFail"):
                     unacked.clear(); del rel[:]
-                    do("ACCEPT 1"); note(do("POLL"))
+                    accept(1); note(do("POLL"))
             drain()
     do("FINISH")
     return ops, answers
 
 
+LOOP_CUT = ("AMBIG", "NOCONN", "DISABLED", "PANIC")
+
+
+def loop_family_moves(ver):
+    """the alphabet of the exhaustive loop families: (op, session_present of the reconnect that
+    follows a failure, receive-maximum of that CONNACK)"""
+    mv = [("SEND PUB 1 0 1 {t}", 1, "-"), ("SEND PUB 2 0 1 {t}", 1, "-"), ("NET PUBACK 1", 1, "-"), ("NET PUBACK 2", 1, "-"),
+          ("NET PUBREC 1", 1, "-"), ("NET PUBCOMP 1", 1, "-"), ("DROP", 1, "-"), ("DROP", 0, "-")]
+    if ver == "5":
+        mv += [("NET PUBREC 1 128", 1, "-"), ("DROP", 1, "1"), ("NET DISCONNECT 139", 1, "-")]
+    return mv
+
+
+def loop_family(model, ver, mx, k):
+    """exhaustive small family, model-guided only in where it stops polling: every sequence of k
+    moves of [loop_family_moves]; after each move the loop is polled until it is idle or fails; a
+    failed connection is re-accepted (with the move's session_present / receive-maximum)"""
+    import itertools
+    v5 = ver == "5"
+    for seq in itertools.product(loop_family_moves(ver), repeat=k):
+        ops, answers = [], []
+
+        def do(op):
+            model.stdin.write(op + "\n"); model.stdin.flush()
+            a = model.stdout.readline().rstrip("\n")
+            ops.append(op); answers.append(a)
+            return a
+
+        def settle():
+            a = "IDLE"
+            for _ in range(8):
+                a = do("POLL")
+                if a.startswith(("IDLE", "ERROR") + LOOP_CUT):
+                    break
+            return a
+
+        do("%s %d 0" % ("LNEW5" if v5 else "LNEW", mx))
+        do("ACCEPT 1"); settle()
+        tag = 0
+        for (op, sp, rm) in seq:
+            tag += 1
+            do(op.format(t=tag))
+            a = settle()
+            if a in LOOP_CUT:
+                break
+            if a.startswith("ERROR") and not a.startswith("ERROR ConnFail"):
+                do("ACCEPT %d%s" % (sp, " " + rm if v5 and rm != "-" else ""))
+                a = settle()
+                if a in LOOP_CUT:
+                    break
+        do("FINISH")
+        yield ops, answers
+
+
 def loop_run(ctx, mexe):
-    """end-to-end: real EventLoop (harness bin clientloop) vs Client/Loop.v, plus loop monitors"""
+    """end-to-end: the real EventLoop, v4 and v5 (harness bin clientloop) vs Client/Loop.v and
+    Client/Loop5.v, plus the loop monitors on the implementation's answers"""
     import subprocess
     res = {"histories": 0, "ops": 0, "div": [], "viol": {p: [] for p in SHARED}, "nontrivial": {}, "built": False,
-           "truncated": 0, "samples": []}
+           "truncated": 0, "samples": [], "by_version": {"4": 0, "5": 0}, "groups": {}, "nontrivial_v5": {}}
     lexe, out = lib.cargo_driver("clientloop")
     if os.environ.get("VERIF_CLIENTLOOP_IMPL"):
         lexe = os.environ["VERIF_CLIENTLOOP_IMPL"]
@@ -1162,54 +1286,73 @@ def loop_run(ctx, mexe):
         res["build_error"] = out[-2000:]
         return res
     res["built"] = True
-    rng = lib.Rng(ctx.seed * 7 + 5)
-    n = 3000 if ctx.thorough() else 400
+    th = ctx.thorough()
+    n = 3000 if th else 400
     model = subprocess.Popen([mexe, "loop"], stdin=subprocess.PIPE, stdout=subprocess.PIPE, text=True, bufsize=1)
-    hs = []
-    for k in range(n):
-        mx = [1, 1, 2, 2, 3, 5][rng.below(6)]
-        style = "order" if k % 3 == 2 else ("burst" if k % 6 == 1 else ("throttle" if k % 6 == 3 else "mixed"))
-        if style == "order":
-            mx = [2, 3, 3, 4][rng.below(4)]
-        ops, mans = gen_loop_history(rng, model, mx, style)
+    hs = []          # (version, max, group, ops, model answers)
+
+    def keep(ver, mx, group, ops, mans):
         # never compare past a point where the real select! may legitimately choose differently
-        cut = next((i for i, a in enumerate(mans) if a in ("AMBIG", "NOCONN", "DISABLED", "PANIC")), None)
+        cut = next((i for i, a in enumerate(mans) if a in LOOP_CUT), None)
         if cut is not None:
             ops, mans = ops[:cut], mans[:cut]
             res["truncated"] += 1
-        hs.append((mx, ops, mans))
+        hs.append((ver, mx, group, ops, mans))
+
+    for ver in VERSIONS:
+        rng = lib.Rng(ctx.seed * 7 + 5 + (0 if ver == "4" else 1000003))
+        for k in range(n):
+            mx = [1, 1, 2, 2, 3, 5][rng.below(6)]
+            style = "order" if k % 3 == 2 else ("burst" if k % 6 == 1 else ("throttle" if k % 6 == 3 else "mixed"))
+            if style == "order":
+                mx = [2, 3, 3, 4][rng.below(4)]
+            ops, mans = gen_loop_history(rng, model, mx, style, ver)
+            keep(ver, mx, "rand-" + style, ops, mans)
+        for (mx, k) in ([(1, 4), (2, 4)] if th else [(1, 3), (2, 3)]):
+            for ops, mans in loop_family(model, ver, mx, k):
+                keep(ver, mx, "exhaustive-max%d-moves%d" % (mx, k), ops, mans)
     model.stdin.close(); model.wait()
-    for h in corpus_histories("4", "loop"):
-        rc0, mans, _ = lib.run_on_text(mexe, "\n".join(h) + "\n", args=["loop"])
-        if rc0 == 0 and len(mans) == len(h):
-            cut = next((i for i, a in enumerate(mans) if a in ("AMBIG", "NOCONN", "DISABLED", "PANIC")), None)
-            if cut is not None:
-                h, mans = h[:cut], mans[:cut]
-            hs.insert(0, (int(h[0].split()[1]), h, mans))
-    text = "\n".join("\n".join(ops) for (_, ops, _) in hs) + "\n"
+    for ver, prefix in (("4", "loop"), ("5", "loop5")):
+        for h in corpus_histories(ver, prefix):
+            if ver == "4" and not h[0].startswith("LNEW "):
+                continue
+            rc0, mans, _ = lib.run_on_text(mexe, "\n".join(h) + "\n", args=["loop"])
+            if rc0 == 0 and len(mans) == len(h):
+                cut = next((i for i, a in enumerate(mans) if a in LOOP_CUT), None)
+                if cut is not None:
+                    h, mans = h[:cut], mans[:cut]
+                hs.insert(0, (ver, int(h[0].split()[1]), "corpus", h, mans))
+    text = "\n".join("\n".join(ops) for (_, _, _, ops, _) in hs) + "\n"
     rc, impl, err = lib.run_on_text(lexe, text)
-    total = sum(len(ops) for (_, ops, _) in hs)
+    total = sum(len(ops) for (_, _, _, ops, _) in hs)
     if rc != 0 or len(impl) != total:
         res["driver_failure"] = "clientloop exit %d, %d/%d lines\n%s" % (rc, len(impl), total, err[-1000:])
         return res
     pos = 0
-    for (mx, ops, mans) in hs:
+    nsamp = {"4": 0, "5": 0}
+    for (ver, mx, group, ops, mans) in hs:
         a = impl[pos:pos + len(ops)]; pos += len(ops)
         res["histories"] += 1; res["ops"] += len(ops)
+        res["by_version"][ver] += 1
+        g = "v%s-%s" % (ver, group)
+        res["groups"][g] = res["groups"].get(g, 0) + 1
         if a != mans and len(res["div"]) < 5:
             k = next(i for i in range(len(ops)) if a[i] != mans[i])
-            res["div"].append({"history": ops[:k + 1], "impl": a[k], "model": mans[k]})
-        mon = LoopMon(mx)
+            res["div"].append({"history": ops[:k + 1], "impl": a[k], "model": mans[k], "version": ver})
+        mon = LoopMon(mx, ver)
         for o, x in zip(ops, a):
             mon.feed(o, x)
         for tg in mon.nontrivial:
             res["nontrivial"][tg] = res["nontrivial"].get(tg, 0) + 1
+            if ver == "5":
+                res["nontrivial_v5"][tg] = res["nontrivial_v5"].get(tg, 0) + 1
         for (p, txt) in mon.viol:
             if len(res["viol"][p]) < 200:
-                res["viol"][p].append({"history": ops, "text": txt})
-        if len(res["samples"]) < 2 and len(ops) > 25:
-            res["samples"].append({"ops": ops[:40], "impl_answers": a[:40]})
-    # read bursts through the v4 and the v5 event loop (no model for the v5 loop: monitor only)
+                res["viol"][p].append({"history": ops, "text": ("(v5 event loop) " if ver == "5" else "") + txt})
+        if nsamp[ver] < 1 and len(ops) > 25 and group.startswith("rand"):
+            nsamp[ver] += 1
+            res["samples"].append({"version": ver, "ops": ops[:40], "impl_answers": a[:40]})
+    # read bursts through the v4 and the v5 event loop
     bl = burst_lines()
     rcb, bans, _ = lib.run_on_text(lexe, "\n".join(bl) + "\n")
     res["bursts"] = len(bl)
